@@ -5,7 +5,7 @@
    the two index_add_ calls of _dqn_loss with batch offsets; None models IndexError. *)
 From Coq Require Import List ZArith QArith Qround Qabs Bool.
 Import ListNotations.
-From AgileV Require Import C18.Model C18.Proofs C18.Kernel C18.Deepen C18.FloatB.
+From AgileV Require Import C18.Model C18.Proofs C18.Kernel C18.Deepen C18.FloatB C18.HeadLoss C18.Dueling.
 Local Open Scope Q_scope.
 
 (* For every support with at least two atoms and v_min < v_max, every reward, done flag, discount and atom:
@@ -223,3 +223,51 @@ Proof.
   - destruct Hbp as [<-|[]]. apply R. reflexivity.
   - destruct Hbp as [<-|[<-|[]]]; apply R; reflexivity.
 Qed.
+
+(* ---- round 3 ---- *)
+
+(* The scalar loss that learn(per=True) minimises is the batch mean of  importance weight_k * element-wise loss_k, where the
+   element-wise losses are the cross-entropies of priority_is_ce (1-step, n-step with gamma^n, combined): the importance
+   weights enter the loss and ONLY the loss — learn_priorities has no weight argument. *)
+Theorem loss_is_weighted_mean : forall c gamma n ss1 ssn ws, valid c ->
+  let gn := Qpower gamma (Z.of_nat n) in
+  (exists el, learn_elementwise c gamma n OneStep ss1 ssn = Some el /\
+     loss_spec (ce_row c gamma) ss1 ws el (learn_loss c gamma n OneStep ss1 ssn ws)) /\
+  (exists el, learn_elementwise c gamma n NStep ss1 ssn = Some el /\
+     loss_spec (ce_row c gn) ssn ws el (learn_loss c gamma n NStep ss1 ssn ws)) /\
+  (exists el, learn_elementwise c gamma n Combined ss1 ssn = Some el /\
+     loss_spec (fun p => ce_row c gamma (fst p) + ce_row c gn (snd p)) (combine ss1 ssn) ws el
+               (learn_loss c gamma n Combined ss1 ssn ws)).
+Proof. exact learn_loss_lemma. Qed.
+Print Assumptions loss_is_weighted_mean.
+
+(* The head (q=False): clamp(softmax, 1e-3) renormalised has as many entries as atoms, total mass one, and no entry below
+   1e-3 / (sum of the clamped values) — for every non-empty softmax vector. *)
+Theorem head_distribution : forall soft, soft <> [] ->
+  length (head_dist soft) = length soft /\ Qsum (head_dist soft) == 1 /\
+  forall x, In x (head_dist soft) -> (1 # 1000) / Qsum (clamp_min (1 # 1000) soft) <= x.
+Proof. exact head_dist_lemma. Qed.
+Print Assumptions head_distribution.
+
+Example c18_round3_nonvacuous :
+  map Qred (head_dist [1 # 2; 1 # 2; 0]) = [500 # 1001; 500 # 1001; 1 # 1001] /\
+  let c := {| natoms := 3; vmin := 0; vmax := 2 |} in
+  let s1 := {| s_rew := 1#2; s_done := 0; s_online := [[1#2;1#4;1#4];[1#4;1#4;1#2]]; s_target := [[1#3;1#3;1#3];[1#5;3#5;1#5]];
+               s_logp := [[-(1);-(2);-(3)];[-(2);-(1);-(1)]]; s_act := 1%nat |} in
+  valid c /\ option_map Qred (learn_loss c (1#2) 2 OneStep [s1; s1] [] [1#2; 1#4]) = Some (33 # 80).
+Proof. split; [vm_compute; reflexivity|]. cbv zeta. split; [split; [cbn; auto|reflexivity]|]. vm_compute. reflexivity. Qed.
+
+(* The dueling combination of the head (value + advantage - mean advantage over the actions): averaged over the actions the
+   logits are the value stream, atom by atom, and each action's logits are the value plus its centred advantage. *)
+Theorem dueling_mean_is_value : forall v adv i, adv <> [] -> (i < length v)%nat -> col_mean (dueling v adv) i == nth i v 0.
+Proof. exact dueling_mean_lemma. Qed.
+Print Assumptions dueling_mean_is_value.
+
+Theorem dueling_entry : forall v adv a i, (a < length adv)%nat -> (i < length v)%nat ->
+  nth i (nth a (dueling v adv) []) 0 == nth i v 0 + (nth i (nth a adv []) 0 - col_mean adv i).
+Proof. exact dueling_entry_lemma. Qed.
+Print Assumptions dueling_entry.
+
+Example c18_dueling_nonvacuous :
+  map (map Qred) (dueling [1; 2] [[1; 0]; [3; 4]]) = [[0; 0]; [2; 4]] /\ Qred (col_mean (dueling [1; 2] [[1; 0]; [3; 4]]) 1) = 2.
+Proof. split; vm_compute; reflexivity. Qed.
